@@ -446,6 +446,10 @@ def run(ctx):
                 if C.base(x) == "is_err":
                     tr, fa = fa, tr
                 okv = okv and all(y.startswith("RET(agg:Option::Some") for y in tr) and all(y.startswith("RET(agg:Option::None") for y in fa) and bool(tr) and bool(fa)
+        if not okv and len(pcs) == 1:
+            # `parse_bre(..).ok()?; Some(..)`: the outcome of the compile itself decides (Ok = 0 => Some, Err = 1 => None)
+            s0, s1 = g.succ(pcs[0], "0"), g.succ(pcs[0], "1")
+            okv = bool(s0) and bool(s1) and all(y.startswith("RET(agg:Option::Some") for y in s0) and all(y.startswith("RET(agg:Option::None") for y in s1) and sorted(set(g.succ(pcs[0]))) == sorted(set(s0 + s1))
         if not okv:
             # the same decision spelled with a combinator: `parse_bre(..).is_ok().then_some(..)` (or `.then(|| ..)`)
             ro = prim.expand_single_def_vars(bf, prim.origin_of_local(bf, 0))
